@@ -37,9 +37,15 @@ def h_buffers(env):
     queue = []        # the hosting agent's queue: (priority, seq, src, msg)
     seq = [0]
 
+    reinjected = set()   # contents of the messages that went through a re-injection
+    rebuffered = [False]  # did a re-injected message get buffered again (computation paused again / not started) ?
+
     def sender(src, dst, msg, prio=None, on_error=None):
         seq[0] += 1
         if dst == comp.name:
+            if msg.content in reinjected:
+                rebuffered[0] = True
+            reinjected.add(msg.content)
             queue.append((prio if prio is not None else 20, seq[0], src, msg))
         else:
             outbox.append((dst, msg.content))
@@ -76,6 +82,22 @@ def h_buffers(env):
             r = env.call(deliver_new, "B")
         elif op == "queueA":
             r = env.call(deliver_new, "A", False)
+        elif op == "step":
+            # the agent thread handles exactly one queued message (management operations such as pause / resume /
+            # start may be interleaved between two message handlings)
+            def one():
+                if queue:
+                    queue.sort(key=lambda e: (e[0], e[1]))
+                    prio, _, src, msg = queue.pop(0)
+                    comp.on_message(src, msg, 0)
+            r = env.call(one)
+        elif op == "start_nodrain":
+            if started:
+                continue
+            started = True
+            r = env.call(comp.start)
+        elif op == "resume_nodrain":
+            r = env.call(comp.pause, False)
         elif op == "post":
             k[0] += 1
             m = Message("t", "p%d" % k[0])
@@ -109,7 +131,12 @@ def h_buffers(env):
     det = lambda: dict(ops=ops, received=received, handled=comp.handled, posted=posted, outbox=outbox)  # noqa
     env.prove("buffers.every-received-message-handled-exactly-once",
               sorted(comp.handled) == sorted(received), detail=det)
-    env.prove("buffers.messages-handled-in-reception-order", comp.handled == received, detail=det)
+    if rebuffered[0]:
+        # known finding KF-BUF-1: a message that was re-injected and then buffered AGAIN (the computation was paused again,
+        # or resumed while not started, before the agent handled it) is re-queued behind the re-injected messages still waiting
+        env.prove("buffers.messages-handled-in-reception-order[a-re-injected-message-was-buffered-again]", comp.handled == received, detail=det)
+    else:
+        env.prove("buffers.messages-handled-in-reception-order", comp.handled == received, detail=det)
     env.prove("buffers.every-posted-message-sent-exactly-once", sorted(outbox) == sorted(posted), detail=det)
     env.prove("buffers.messages-sent-in-posting-order", outbox == posted, detail=det)
     env.prove("buffers.nothing-left-in-the-buffers",
@@ -121,7 +148,8 @@ Contract(
     ["pydcop.infrastructure.computations:MessagePassingComputation.start", "pydcop.infrastructure.computations:MessagePassingComputation.pause",
      "pydcop.infrastructure.computations:MessagePassingComputation.on_message", "pydcop.infrastructure.computations:MessagePassingComputation.post_msg"],
     h_buffers,
-    lambda tier: [dict(n=4), dict(n=5, ops=["recvA", "recvB", "post", "start", "pause", "resume"]), dict(n=5, ops=["recvA", "queueA", "start", "pause", "resume"])]
+    lambda tier: [dict(n=4), dict(n=5, ops=["recvA", "recvB", "post", "start", "pause", "resume"]), dict(n=5, ops=["recvA", "queueA", "start", "pause", "resume"]),
+                  dict(n=6, ops=["queueA", "step", "start_nodrain", "pause", "resume_nodrain"])]
     + ([dict(n=6), dict(n=7, ops=["recvA", "recvB", "post", "pause", "resume", "start"]), dict(n=7, ops=["recvA", "queueA", "start", "pause", "resume"])] if tier == "thorough" else []),
     mode="E", must_cover=["post"],
     trusted=["agent queue emulated as (priority, FIFO) - the guarantee of C18"],
